@@ -11,7 +11,7 @@ RULE = ('random lists of (key, aliases, flag) entries (aliases of several words,
         'ambiguous (same key in another case, an alias shared by two keys in another case / spacing, also around parentheses, an alias equal to another key, '
         'an operator word as alias) - each in 3 entry orders and in 3 representations (key strings where possible, LicenseSymbol '
         'objects, arbitrary objects with key/aliases/is_exception); Spec: Licensing() raises ValueError exactly when the table is '
-        'Ambiguous (the order-free definition in Lean), the same in every order and representation, and accepted tables answer '
+        'Ambiguous (the order-free definition in Lean), the same in every order and representation, an accepted table is unambiguous for the matcher too (namesUniqueB in Lean: no word sequence stored for two licenses), and accepted tables answer '
         'parse / license_keys / validate identically in every representation; correspondence: the order-dependent bookkeeping of '
         'the model (validate_symbols) gives the same verdict. Exhaustive: all ordered tables of <= 3 entries from a pool of 8. '
         'non-trivial = >= 2 entries; distinct by table')
@@ -77,8 +77,8 @@ class Prop(BaseProp):
                 le.LicenseSymbol(k)
             except le.ExpressionError:
                 return Verdict('skip', case)
-        amb, ref = drv.call_many([(T('ambiguous'), table), (T('table'), table)])
-        amb, ref = bool(amb), bool(ref)
+        amb, ref, uniq = drv.call_many([(T('ambiguous'), table), (T('table'), table), (T('namesunique'), table)])
+        amb, ref, uniq = bool(amb), bool(ref), bool(uniq)
         tags = ['ambiguous=%s' % amb, 'entries=%d' % len(table)]
         orders = [table, list(reversed(table))]
         if len(table) > 2:
@@ -97,6 +97,10 @@ class Prop(BaseProp):
                     lics[rep] = lic
         if ref != (amb):
             return Verdict('diverge', case, 'validate_symbols', impl='valueerror' if amb else 'ok', model=ref, tags=tags)
+        if not amb and not uniq:
+            # the hypothesis of C04_alone / C15_general (Lean: namesUniqueB): what Licensing() accepts must be unambiguous
+            # for the matcher too - no word sequence stored for two different licenses (this is how defect F9 was found)
+            return Verdict('spec', case, 'an accepted table stores one word sequence for two different licenses (ambiguous for the matcher)', tags=tags)
         if lics:
             names = gen.names_of(table)
             texts = [' or '.join(names[:3]) or 'mit', (names[0] if names else 'x') + ' with foo and (bar)', 'zq and ' + (names[-1] if names else 'x')]
